@@ -134,17 +134,18 @@ def stretched_max_time(M, absence):
         T = M + n
 
 
-def fifo_explains(spec, cfgA, cfgB, L):
+def fifo_explains(spec, cfgA, cfgB, L, bwt=None):
     """Diagnosis: do the twins agree once the FIFO key ignores READY entries logged at absence steps?"""
     from .. import seams
 
     try:
         seams.FIFO_NEUTRAL = set(L)
         scen.setup_run(spec.get("seed", 0))
-        ta = scen.run_forward(spec["model"], spec.get("ranks"), cfgA, want_snap=False)
+        bkw = {"backward": bwt} if bwt else {}
+        ta = scen.run_forward(spec["model"], spec.get("ranks"), cfgA, want_snap=False, **bkw)
         seams.FIFO_NEUTRAL = set()
         scen.setup_run(spec.get("seed", 0))
-        tb = scen.run_forward(spec["model"], spec.get("ranks"), cfgB, want_snap=False)
+        tb = scen.run_forward(spec["model"], spec.get("ranks"), cfgB, want_snap=False, **bkw)
     finally:
         seams.FIFO_NEUTRAL = None
     if not (ta.out.ok and tb.out.ok):
@@ -321,7 +322,7 @@ def run(spec):
                     attrs = D.diff_attrs(da, db)
                     rule = spec["cfg"].get("rule", 0)
                     cause = "rule_%s" % ["TSLACK", "EST", "SPT", "LPT", "FIFO", "LRPT", "SRPT", "LWRPT", "SWRPT"][rule]
-                    if rule == 4 and bwt is None and fifo_explains(spec, cfgA, cfgB, L):
+                    if rule == 4 and fifo_explains(spec, cfgA, cfgB, L, bwt):
                         cause = "FIFO_counts_absence_steps_as_waiting"
                     if bwt is not None and not cause.startswith("FIFO_counts"):
                         cause += ".backward"
